@@ -537,6 +537,54 @@ def run_samename(item):
     return res
 
 
+def run_constraint(item):
+    """Parent field Annotated[int, Field(ge=a)], child overrides it (undeclared) with Annotated[int, Field(ge=b)]."""
+    import typing
+
+    from pydantic import Field
+    from typing_extensions import Annotated
+
+    e = _E
+    _housekeeping()
+    f = e.n.f
+    shape, a, b = item["shape"], item["gp"], item["gc"]
+    res = {"outcome": None, "programs": 2, "evals": 0, "valid": 0, "viol": [], "sample": None}
+
+    def hint(lo):
+        T = Annotated[int, Field(ge=lo)]
+        return {"T": T, "Optional[T]": typing.Optional[T]}[shape]
+
+    try:
+        P = G.make_class(e, {f: hint(a)}, prefix="KP")
+        if not check_ok(P):
+            res["outcome"] = "parent-refused"
+            return res
+        C = G.make_class(e, {f: hint(b)}, base=P, prefix="KC")
+    except Exception:
+        res["outcome"] = "refused-at-definition"
+        return res
+    if not check_ok(C):
+        res["outcome"] = "refused"
+        return res
+    res["outcome"] = "accepted"
+    for v in sorted({a - 1, a, b - 1, b, max(a, b) + 1}):
+        res["evals"] += 1
+        st, w = _witness(P, C, {f: v})
+        if st in ("ok", "witness"):
+            res["valid"] += 1
+        if st == "witness":
+            cause, what = w
+            res["viol"].append(
+                {
+                    "sig": dict({"part": "override-soundness", "variant": "field-constraint"}, **cause),
+                    "input": {"kind": "constraint", "item": item, "seed": e.n.seed},
+                    "what": f"parent field Annotated[int, Field(ge={a})] ({shape}), child re-declares it as Annotated[int, Field(ge={b})] without @override, plugin check passes, but " + what,
+                }
+            )
+            break
+    return res
+
+
 # ------------------------------------------------------------------------------------------------ driver
 
 CORE = [a for a in c12.CORE_UNION_ATOMS if a not in G.DATE_ATOMS]
@@ -627,6 +675,16 @@ def run(tier, seed):
             so[r["outcome"]] = so.get(r["outcome"], 0) + 1
             viols += r["viol"]
         cov["same_name_types"] = {"programs": len(sitems), "outcomes": so}
+        # ---------------- Part B: numeric bounds given through Annotated[.., Field(..)]
+        kitems = [{"shape": sh, "gp": a, "gc": b} for sh in ("T", "Optional[T]") for a in (0, 5) for b in (-5, 0, 5, 7)]
+        ko = {}
+        for it, r in zip(kitems, pool.map("run_constraint", kitems, chunk=4, item_deadline=60)):
+            if r == parallel.HANG:
+                hangs += 1
+                continue
+            ko[r["outcome"]] = ko.get(r["outcome"], 0) + 1
+            viols += r["viol"]
+        cov["field_constraints"] = {"programs": len(kitems), "outcomes": ko}
         # ---------------- Part A: generated chains
         t1 = time.time()
         d2 = G.enumerate_types(2)
@@ -730,6 +788,9 @@ def replay(data):
     inp = data["input"]
     worker_init(seed=inp.get("seed", 0))
     kind = inp["kind"]
+    if kind == "constraint":
+        r = run_constraint(inp["item"])
+        return r["viol"][0] if r["viol"] else None
     if kind == "samename":
         r = run_samename(inp["item"])
         return r["viol"][0] if r["viol"] else None
